@@ -29,7 +29,7 @@ pub const SPEC: PropSpec = PropSpec {
         ("c09.before_client_known", 5_000, 150_000),
         ("c09.nak_beyond_cap", 50, 1_500),
         ("c09.srtla_ack_lists", 2_000, 60_000),
-        ("live.C09.completeness_checked", 6, 48),
+        ("live.C09.completeness_checked", 4, 40),
         ("live.C09.hostile_datagrams_sent", 500, 4000),
         ("live.C09.return_datagrams_expected", 3000, 24000),
     ],
